@@ -397,6 +397,12 @@ func (vc *VC) callMods(fr *Frame, c *ssa.CallCommon, mods map[string]bool, depth
 		}
 		return false
 	}
+	if name == "sort.Sort" || name == "sort.Stable" {
+		if sv := sortedSliceArg(c); sv != nil {
+			vc.memNamesOf(sv.Type().Underlying().(*types.Slice).Elem(), mods)
+			return false
+		}
+	}
 	if ms, ok := nativeMods(name); ok {
 		for _, m := range ms {
 			mods[m] = true
@@ -653,6 +659,24 @@ func (vc *VC) copyElems(fr *Frame, st *State, dbase, doff, sbase, soff, n Term, 
 
 // ---------- native models of library functions ----------
 
+// sortedSliceArg returns the slice-typed SSA value behind the sort.Interface argument of sort.Sort / sort.Stable
+// (`sort.Sort(ByName(xs))`: a named slice type converted from / being a slice), or nil.
+func sortedSliceArg(c *ssa.CallCommon) ssa.Value {
+	if len(c.Args) != 1 {
+		return nil
+	}
+	v := c.Args[0]
+	if mi, ok := v.(*ssa.MakeInterface); ok {
+		v = mi.X
+	} else {
+		return nil
+	}
+	if _, ok := v.Type().Underlying().(*types.Slice); !ok {
+		return nil
+	}
+	return v
+}
+
 func nativeMods(name string) ([]string, bool) {
 	switch {
 	case name == "(*sync.Map).Load":
@@ -757,6 +781,25 @@ func (vc *VC) guaranteeMapObl(fr *Frame, st *State, present, cur, nw Term, cond 
 func (vc *VC) nativeModel(fr *Frame, st *State, instr *ssa.Call, c *ssa.CallCommon, fn *ssa.Function, name string, args []Term) bool {
 	pos := c.Pos()
 	switch {
+	case name == "sort.Sort" || name == "sort.Stable":
+		// sorting a slice permutes its elements and touches nothing else (the Len / Less / Swap methods of the slice
+		// type are assumed to be the usual ones); which permutation is not modelled: the elements are havocked
+		sv := sortedSliceArg(c)
+		if sv == nil {
+			return false
+		}
+		x := vc.val(fr, sv)
+		names := map[string]bool{}
+		vc.memNamesOf(sv.Type().Underlying().(*types.Slice).Elem(), names)
+		for n := range names {
+			_, cell := vc.memKindByName(n)
+			m := vc.get(st, n, memSort(cell))
+			row := vc.q.Fresh(n+"$sorted", ArraySort(SPath, cell))
+			vc.set(st, n, vc.q.Define(n, Store(m, Root(SBase(x)), row)))
+		}
+		vc.assumed["sort.Sort / sort.Stable on a slice permutes the elements of that slice and touches nothing else (the order is not modelled: the elements are arbitrary afterwards)"] = true
+		vc.setResults(fr, instr, nil)
+		return true
 	case strings.HasPrefix(name, "sync/atomic."):
 		ty := vc.atomicType(name)
 		if ty == nil {
